@@ -19,7 +19,7 @@ RULE = (
     "bounds) compiled with construct-pipeline,pipeline-duplicate-buffers,unroll-pipeline (variant P additionally prefixed by "
     "pipeline-canonicalize-for; variant B followed by insert-sync-barrier,dispatch-regions and executed literally). 2-3 cores run the result on "
     "the simulated cluster under K seeded schedules (stalls biased to the first action after a barrier, burst 1/whole); environments: lb in "
-    "{0,1,3}, step in {1,2}, trip counts 0..6 including < #stages. Oracles: multiset of (stage op, external tile, data read) equals the "
+    "{0,1,3}, step in {1,2}, trip counts 0..6 including < #stages; in an eighth of the programs a temporary of the loop is read once more behind the loop. Oracles: multiset of (stage op, external tile, data read) equals the "
     "sequential loop's; final contents of the function arguments equal; no external cell outside those the sequential loop touched; race "
     "monitor; barrier deadlock. non-trivial = the loop was pipelined and >= 1 iteration ran; distinct = hash of (program, environments)."
 )
@@ -40,13 +40,14 @@ def args_for(m: BufferMachine, env):
     for name in ("A", "O", "O2"):
         b = m.new_buffer(name, n, external=True)
         vs.append(View(b, 0, [n], [1]))
-    g = m.new_buffer("G", PL.E, external=True)
-    vs.append(View(g, 0, [PL.E], [1]))
+    for name in ("G", "P"):
+        g = m.new_buffer(name, PL.E, external=True)
+        vs.append(View(g, 0, [PL.E], [1]))
     return vs + [env["lb"], env["ub"], env["step"]]
 
 
 def _ext(descr):
-    return descr if descr[0] in ("A", "O", "O2", "G") else ("tmp",)
+    return descr if descr[0] in ("A", "O", "O2", "G", "P") else ("tmp",)
 
 
 def op_multiset(log):
@@ -58,7 +59,7 @@ def touched(log):
     cells = set()
     for _, tag, descr, read in log:
         for d in descr:
-            if d[0] in ("A", "O", "O2", "G"):
+            if d[0] in ("A", "O", "O2", "G", "P"):
                 v = View(type("B", (), {"name": d[0]})(), d[1], d[2], d[3])
                 cells.update((d[0], i) for i in v.indices())
     return cells
@@ -157,6 +158,18 @@ def execute(case):
     out["nontrivial"] = bool(ran)
     out["digest"] = digest_of(digests)
     return out
+
+
+def _kf_c15_1(case, outcome):
+    post = case["ast"].get("post")
+    if not post or outcome.get("oracle") not in ("stage-executions", "final-contents") or outcome.get("env_index") is None:
+        return False
+    trips = PL.trips_of(case["envs"][outcome["env_index"]])
+    msg = outcome.get("message") or ""
+    return trips >= 2 and trips % 2 == 0 and (f"[({post['tag']}, " in msg or "('P'," in msg)
+
+
+TRIGGERS = {"duplicated_buffer_read_behind_the_loop": _kf_c15_1}
 
 
 def shrink(case):
